@@ -144,17 +144,24 @@ RECURSIVE ReachS(_, _)
 ReachS(front, seen) == LET nxt == UNION {Succs(x) : x \in front} \ seen
                        IN  IF nxt = {} THEN seen ELSE ReachS(nxt, seen \cup nxt)
 OnLoop(t) == t \in ReachS({t}, {})
-ReadyB(t) == \/ (OwnEnd(t) >= 0 /\ ~(T(t).pinEnd >= 0 /\ OnLoop(t)))
-             \/ /\ \A d \in AllDeps(t) : d.onstart => (d.p # 0 /\ ts[d.p].sched)
-                /\ \A u \in Succs(t) : ts[u].sched
+ReadyB(t) == IF OwnEnd(t) >= 0 THEN ~(T(t).pinEnd >= 0 /\ OnLoop(t))
+             ELSE /\ \A d \in AllDeps(t) : d.onstart => (d.p # 0 /\ ts[d.p].sched)
+                /\ \A u \in Succs(t) : ts[u].sched \/ ts[u].fwd      \* a forward successor waits for t, not t for it
 GapTo(u, t) == LET ds == {d \in AllDeps(u) : d.p \in ({t} \cup AncT(t)) /\ d.p \notin AncT(u) /\ ~d.onstart}
                IN IF ds = {} THEN 0 ELSE MaxOf({d.gap : d \in ds})
+\* the start of a successor as the walk sees it: where it was placed; for a forward successor that is still to come (it waits
+\* for t), the earliest instant it may begin at -- its own start, else the start it inherits from a container
+SeenStart(u) == IF ts[u].start >= 0 THEN ts[u].start
+                ELSE IF ts[u].sched \/ ~ts[u].fwd THEN -1
+                ELSE IF T(u).pin >= 0 THEN T(u).pin ELSE T(u).inhStart
 Deadline(t) ==
   IF OwnEnd(t) >= 0 THEN OwnEnd(t)
   ELSE MinOf({P.declEndSec}      \* the project end as DECLARED: the extension of the horizon for work that does not fit moves nobody (C09, C16)
           \cup {ts[d.p].start - d.gap : d \in {x \in AllDeps(t) : x.onstart /\ x.p # 0 /\ ts[x.p].start >= 0}}
-          \cup {ts[u].start - GapTo(u, t) : u \in {v \in Succs(t) : ts[v].start >= 0}})          \* D9
-Ready(t) == ts[t].st = "todo" /\ T(t).leaf /\ IF Fwd(t) THEN ReadyF(t) ELSE ReadyB(t)
+          \cup {SeenStart(u) - GapTo(u, t) : u \in {v \in Succs(t) : SeenStart(v) >= 0}})          \* D9
+\* dates that contradict each other (an event the user dated to end before it starts) are not a schedule: never placed (F54)
+Inverted(t) == T(t).effort = 0 /\ ~T(t).other /\ T(t).pin >= 0 /\ T(t).pinEnd >= 0 /\ T(t).pinEnd < T(t).pin
+Ready(t) == ts[t].st = "todo" /\ T(t).leaf /\ ~Inverted(t) /\ IF Fwd(t) THEN ReadyF(t) ELSE ReadyB(t)
 FirstReady(t) == Ready(t) /\ \A u \in Leafs : (u # t /\ Ready(u)) => Before(t, u)
 AnyOnShift(t, s) == \E r \in SeqSet(T(t).alloc) \cup SeqSet(T(t).alt) : OnShift(r, s)
 \* last slot <= s in which any candidate resource of t is on shift (0 if none); searched in blocks of 64
